@@ -378,6 +378,13 @@ def shot_noise(img, method='poisson', seed=None):
 
     rng = np.random.default_rng(seed)
 
+    # the same input checks apply to both methods; the Gaussian branch would
+    # otherwise turn invalid values of an array into garbage without raising
+    if np.min(img) < 0:
+        raise ValueError('Counts must be positive')
+    elif np.max(img) > 9.223372006484771e+18:
+        raise ValueError('Counts exceed max representable value')
+
     if method == 'poisson':
         try:
             img = rng.poisson(img)
